@@ -45,6 +45,10 @@ pub enum Op {
     CrossProtocol(&'static str),
     OtherRequest(&'static str),
     Raw(&'static str),
+    /// A signed field carries a value that must make the client refuse; the value that would make it
+    /// accept is offered as an UNSIGNED tag of the same name in another container ("top" level of the
+    /// reply or the "cert" container). (field, container)
+    Shadow(&'static str, &'static str),
 }
 
 impl Op {
@@ -59,6 +63,7 @@ impl Op {
             Op::CrossProtocol(w) => format!("crossproto:{}", w),
             Op::OtherRequest(w) => format!("otherreq:{}", w),
             Op::Raw(w) => format!("raw:{}", w),
+            Op::Shadow(f, c) => format!("shadow:{}:in-{}", f, c),
         }
     }
     pub fn family(&self) -> &'static str {
@@ -71,6 +76,7 @@ impl Op {
             Op::OtherRequest(_) => "T6-cross-request",
             Op::Truncate(_) | Op::Extend(_) => "T7-length",
             Op::Raw(_) => "T8-raw",
+            Op::Shadow(..) => "T9-unsigned-shadow-tag",
         }
     }
 }
@@ -271,6 +277,60 @@ pub fn apply(op: &Op, sc: &Scenario, req: &[u8], prev_honest: &[u8]) -> Vec<u8> 
             }
             p.datagram()
         }
+        Op::Shadow(field, container) => {
+            let mut p = honest.clone();
+            let shadow: Vec<u8> = match *field {
+                // SREP signed by an attacker's key; the attacker's key offered as unsigned PUBK
+                "PUBK" => {
+                    let o = s2();
+                    p.srep.set("MIDP", le64(sc.stamp.midp + 3));
+                    p.sign_srep(v, &o.online_seed);
+                    o.online_pk().to_vec()
+                }
+                // properly signed delegation whose window excludes the midpoint; a wider bound offered unsigned
+                "MINT" => {
+                    p.dele.set("MINT", le64(sc.stamp.midp + 1));
+                    p.sign_dele(v, &id.lt_seed);
+                    le64(0)
+                }
+                "MAXT" => {
+                    p.dele.set("MAXT", le64(sc.stamp.midp.saturating_sub(1)));
+                    p.sign_dele(v, &id.lt_seed);
+                    le64(u64::MAX)
+                }
+                // same excluded window; a midpoint inside it offered unsigned
+                "MIDP" => {
+                    p.dele.set("MINT", le64(sc.stamp.midp + 1));
+                    p.dele.set("MAXT", le64(sc.stamp.midp + 100));
+                    p.sign_dele(v, &id.lt_seed);
+                    le64(sc.stamp.midp + 50)
+                }
+                // properly signed SREP whose ROOT covers another batch; the right root offered unsigned
+                "ROOT" => {
+                    let right = p.srep.get("ROOT").map(|r| r.to_vec()).unwrap_or_default();
+                    let other: Vec<Vec<u8>> = (0..sc.n).map(|k| std_request(v, &nonce(0x8900 + k as u64, v.nonce_len()))).collect();
+                    let q = honest_parts(v, &id, &other, sc.i, sc.stamp);
+                    p.srep = q.srep.clone();
+                    p.sig = q.sig.clone();
+                    right
+                }
+                // a whole alternative DELE (attacker's key, unsigned) next to the genuine one
+                "DELE" => {
+                    let o = s2();
+                    p.srep.set("MIDP", le64(sc.stamp.midp + 3));
+                    p.sign_srep(v, &o.online_seed);
+                    let mut d = p.dele.clone();
+                    d.set("PUBK", o.online_pk().to_vec());
+                    d.encode()
+                }
+                _ => panic!("unknown Shadow field {}", field),
+            };
+            match *container {
+                "top" => p.top_extra.push((field, shadow)),
+                _ => p.cert_extra.push((field, shadow)),
+            }
+            p.datagram()
+        }
         Op::CrossProtocol(what) => {
             let o = v.other();
             match *what {
@@ -368,6 +428,14 @@ pub fn alphabet(v: Version, honest_len: usize, tier: Tier) -> Vec<Op> {
     if v == Version::Ietf13 {
         ops.push(Op::SetField("VER", "classic"));
         ops.push(Op::SetField("VER", "remove"));
+    }
+    for f in ["PUBK", "MINT", "MAXT", "MIDP", "ROOT", "DELE"] {
+        for c in ["top", "cert"] {
+            if f == "DELE" && c == "cert" {
+                continue; // CERT already holds the genuine DELE: a second one is a duplicate tag (not decodable)
+            }
+            ops.push(Op::Shadow(f, c));
+        }
     }
     for r in ["all-by-s2", "srep-by-s2-online", "dele-by-s2", "window-before", "window-after", "window-empty", "root-of-other-batch", "root-empty", "root-prefix-4", "root-half", "root-extended", "forged-srep-with-certsig", "forged-dele-keeping-certsig"] {
         ops.push(Op::Resign(r));
@@ -789,7 +857,7 @@ pub fn run_c01(ctx: &Ctx) -> Result<(), String> {
     ctx.cov("outcome_classes", json!(*classes.lock().unwrap()));
     ctx.cov("exhaustive", json!(true));
     ctx.cov("bound", json!({"deviations": 1, "batch_shapes": shapes(ctx.tier), "multi_request": [2, 3]}));
-    ctx.cov("rule", json!("each case = one execution of the real roughenough-client process (-z -v -f '%s %f' -k <S1 key, hex or base64> -p 0|13 [-j]) against a harness UDP responder that builds the honest reply for the request actually received (reference responder, keys S1) and applies ONE tamper operator: T1 every single bit of the whole datagram; T2 field substitutions on SIG, CERT.SIG, PATH, INDX, SREP.{MIDP,RADI,ROOT,VER}, DELE.{PUBK,MINT,MAXT} without re-signing; T3 chain re-signed by another long-term key; T4 properly signed (by S1) delegation window excluding MIDP, root of another batch, ROOT that is not a full node (empty, 4-byte prefix, half, extended); T5 cross-protocol context/tree/framing; T6 replies for other requests (same batch, other batch, previous run; for -n 2/3 all assignment functions); T7 truncations (quick: every 4 bytes, thorough: every byte) and extensions; raw junk; genuine signature values reused in the other role; and, with -n 2, every structured operator on the SECOND reply after an honest first one (state remembered by the client process). Also, through a recording proxy in front of a real roughenough-server of the current tree: the genuine response recorded in one run replayed to a later run, and with -n 2 (thorough 3) every assignment of the run's genuine responses to its requests. 0 deviations = honest baseline. Oracle: violation iff the client exits 0 and prints a time while rtref::authentic (client view, pinned key) rejects. Non-trivial = any case with a tamper operator."));
+    ctx.cov("rule", json!("each case = one execution of the real roughenough-client process (-z -v -f '%s %f' -k <S1 key, hex or base64> -p 0|13 [-j]) against a harness UDP responder that builds the honest reply for the request actually received (reference responder, keys S1) and applies ONE tamper operator: T1 every single bit of the whole datagram; T2 field substitutions on SIG, CERT.SIG, PATH, INDX, SREP.{MIDP,RADI,ROOT,VER}, DELE.{PUBK,MINT,MAXT} without re-signing; T3 chain re-signed by another long-term key; T4 properly signed (by S1) delegation window excluding MIDP, root of another batch, ROOT that is not a full node (empty, 4-byte prefix, half, extended); T5 cross-protocol context/tree/framing; T6 replies for other requests (same batch, other batch, previous run; for -n 2/3 all assignment functions); T7 truncations (quick: every 4 bytes, thorough: every byte) and extensions; raw junk; genuine signature values reused in the other role; T9 a signed field made unacceptable with the acceptable value offered as an unsigned tag of the same name at the top level of the reply or inside the CERT container (PUBK, MINT, MAXT, MIDP, ROOT, DELE); and, with -n 2, every structured operator on the SECOND reply after an honest first one (state remembered by the client process). Also, through a recording proxy in front of a real roughenough-server of the current tree: the genuine response recorded in one run replayed to a later run, and with -n 2 (thorough 3) every assignment of the run's genuine responses to its requests. 0 deviations = honest baseline. Oracle: violation iff the client exits 0 and prints a time while rtref::authentic (client view, pinned key) rejects. Non-trivial = any case with a tamper operator."));
     ctx.sample(json!({"version":"classic","n":3,"i":2,"op":"set:CERTSIG:by-s2","key":"hex"}));
     ctx.sample(json!({"version":"ietf13","n":1,"i":0,"op":"flipbit:1007","key":"base64"}));
     ctx.sample(json!({"version":"classic","nreq":3,"assignment":[1,0,2]}));
